@@ -638,7 +638,7 @@ class Engine:
         s.run_until(st, depth)
         return st.last_ret if hasattr(st, 'last_ret') else None
 
-    def push_call(s, st, name, args, res_reg):
+    def push_call(s, st, name, args, res_reg, argtypes=None):
         while name in s.m.aliases and s.m.aliases[name].kind == 'glob': name = s.m.aliases[name].name
         f = s.m.funcs.get(name)
         # a function DEFINED in the module (real code, or a harness-level seam such as a virtual clock) wins over a built-in model
@@ -658,6 +658,9 @@ class Engine:
         fr = Frame(f); fr.ret_to = res_reg
         for (t, nm, info), a in zip(f.params, args):
             if nm: fr.regs[nm] = a
+        if len(args) > len(f.params):      # variadic call: the extra arguments are kept for llvm.va_start
+            tys = argtypes[len(f.params):] if argtypes else [None] * (len(args) - len(f.params))
+            fr.regs['$va'] = tuple(zip(tys, args[len(f.params):]))
         st.stack.append(fr)
 
     def explore(s, entry, setup=None):
@@ -1068,7 +1071,7 @@ class Engine:
                 work.append(other); s.stats['forks'] += 1
                 return
         else:
-            s.push_call(st, name, args, ins.res)
+            s.push_call(st, name, args, ins.res, [t for (t, a, info) in ins.args if a is not None])
         if len(st.stack) == before:
             # external model executed synchronously
             if st.exc is None and ins.op == 'invoke': s.jump(st, fr, ins.normal)
@@ -1115,7 +1118,25 @@ class Engine:
             a = args[0]; bits = ins.rty.bits
             if is_sym(a): return z3.simplify(z3.If(a < 0, -a, a))
             return ((1 << bits) - a) & ((1 << bits) - 1) if a >> (bits - 1) else a
-        if nm.startswith('llvm.va_start') or nm.startswith('llvm.va_end') or nm.startswith('llvm.va_copy'): return None     # variadic arguments are not modelled: consumers are harness-level seams that ignore them
+        if nm.startswith('llvm.va_start'):
+            # x86-64 va_list {i32 gp_offset, i32 fp_offset, i8* overflow_arg_area, i8* reg_save_area}: every variadic argument is laid out
+            # in 8-byte slots of the overflow area and both offsets are set past the register save area, so va_arg always takes the memory path
+            va = fr.regs.get('$va', ())
+            ap = s.concretize(st, args[0])
+            blk = s.alloc(st, max(8, 8 * len(va)), 'stack')
+            for i, (t, v) in enumerate(va):
+                bits = t.bits if isinstance(t, TInt) else 64
+                if v is UNDEF: continue
+                if bits < 64:
+                    v = z3.ZeroExt(64 - bits, v) if is_sym(v) else (v & ((1 << bits) - 1))
+                s.store(st, blk + 8 * i, TInt(64), v)
+            s.store(st, ap, TInt(32), 48); s.store(st, ap + 4, TInt(32), 304)
+            s.store(st, ap + 8, TInt(64), blk); s.store(st, ap + 16, TInt(64), 0)
+            return None
+        if nm.startswith('llvm.va_copy'):
+            d = s.concretize(st, args[0]); a = s.concretize(st, args[1])
+            s.store_bytes(st, d, s.load_bytes(st, a, 24)); return None
+        if nm.startswith('llvm.va_end'): return None
         if nm.startswith('llvm.stacksave'): return 0
         if nm.startswith('llvm.trap'): raise Violation('trap')
         raise Unsupported('intrinsic ' + nm)
